@@ -9,6 +9,7 @@ import TypedpyModel.Drive.Wire
 import TypedpyModel.Drive.Mutate
 import TypedpyModel.Sem.EqHash
 import TypedpyModel.Lemmas.HashLemmas
+import TypedpyModel.Lemmas.CanonHash
 import TypedpyModel.Spec.Conforms
 import TypedpyModel.Generated.Wrappers
 namespace Typedpy.Drive.Pairs
@@ -71,7 +72,7 @@ def stepsJson (c : ClassOpts) (fields : List (String × FieldDecl)) (O : Oracles
     Inst → List Op → List Json
   | _, [] => []
   | x, op :: rest =>
-    let r := stepI Generated.wrappers O c fields x op
+    let r := stepI Generated.nestedBound Generated.wrappers O c fields x op
     Json.mkObj [("out", Mutate.outcomeJson r.2), ("state", instToJson r.1)] :: stepsJson c fields O r.1 rest
 
 def copyJson (R : Render) (defaults : EqCtx) (x y : Inst) : Json :=
@@ -96,6 +97,8 @@ def run (j : Json) : Except String Json := do
     let wf := insts.map fun a => Json.bool (wellFormed O cls (.inst a.cls a.attrs))
     -- hypotheses of the theorems, evaluated on what the real code produced
     let ok := insts.map fun a => Json.bool (okAttrs a.attrs && okAttrs defaults0 && keysDistinct (a.attrs.map (·.1)))
+    -- … and of `eq_canon_hash` (the repaired hash): `okInstS`
+    let okS := insts.map fun a => Json.bool (okInstS defaults a && keysDistinct (a.attrs.map (·.1)))
     let same := insts.map fun a => Json.arr (insts.map fun b => Json.bool (sameSpellI a b)).toArray
     let ops ← match optField j "ops" with
       | none => pure []
@@ -121,7 +124,7 @@ def run (j : Json) : Except String Json := do
          ("runPickle", Json.arr (stepsJson c fields O p ops).toArray)]
     pure (Json.mkObj ([("start", Json.arr starts.toArray), ("eq", Json.arr eq.toArray),
                        ("fieldwise", Json.arr fw.toArray), ("keys", Json.arr keys.toArray),
-                       ("wf", Json.arr wf.toArray), ("ok", Json.arr ok.toArray),
+                       ("wf", Json.arr wf.toArray), ("ok", Json.arr ok.toArray), ("okS", Json.arr okS.toArray),
                        ("same", Json.arr same.toArray)] ++ copies))
   | _ => throw "pairs: cls must be a struct"
 
